@@ -272,17 +272,17 @@ func wsHeaders(connID string) http.Header {
 type TunnelClient struct {
 	Kind string // "ws" | "legacy" | "proc"
 	// ws / proc: one connection. legacy: out + in.
-	Conn    *vnet.PipeConn
-	In      *vnet.PipeConn
-	rbuf    []byte // unparsed bytes received on Conn
-	stream  []byte // de-framed packet bytes received so far
-	Pkts    []tsgu.Pkt
-	consumed int
-	Closed  bool // server closed (EOF or ws close frame)
+	Conn       *vnet.PipeConn
+	In         *vnet.PipeConn
+	rbuf       []byte // unparsed bytes received on Conn
+	stream     []byte // de-framed packet bytes received so far
+	Pkts       []tsgu.Pkt
+	consumed   int
+	Closed     bool // server closed (EOF or ws close frame)
 	CloseFrame bool
-	HTTPHead string
-	FrameErr string
-	Seed     []byte
+	HTTPHead   string
+	FrameErr   string
+	Seed       []byte
 }
 
 // readMore blocks for at least one more byte from the server; false on EOF / error.
